@@ -35,6 +35,9 @@ func extraJobs(tier string) []job {
 	for i := 0; i < 2; i++ {
 		j = append(j, job{"heavy", i, 0, 0})
 	}
+	for i := 0; i < 4; i++ {
+		j = append(j, job{"revoke", i, 0, 0})
+	}
 	return j
 }
 
@@ -50,6 +53,8 @@ func runExtra(seed int64, j job) ScenarioOut {
 		return scenarioStale(seed, j.idx)
 	case "heavy":
 		return scenarioHeavy(seed, j.idx)
+	case "revoke":
+		return scenarioRevoke(seed, j.idx)
 	}
 	return ScenarioOut{Name: j.kind, Stats: map[string]int{}}
 }
@@ -615,6 +620,40 @@ func scenarioLoad(seed int64, idx int) ScenarioOut {
 			s.bal[recv.Address()] += int64(amt.Currency)
 		}
 	}
+	if idx%2 == 0 && len(src.prev.Leaves) > 0 {
+		// two tips that share an ancestor and each have ancestors of their own: T1(A,U1) T2(A,U2) U1(W1) U2(W2), A/W1/W2 on the current tip
+		var base *accountant.Vertex
+		for i := range src.prev.Vertices {
+			if src.prev.Vertices[i].Hash == src.prev.Leaves[0] {
+				base = &src.prev.Vertices[i]
+			}
+		}
+		sealer := w.wallets[5]
+		fork := func(l, r *accountant.Vertex, subject string) *accountant.Vertex {
+			t := craftTrx(s.recvRich, s.users[1].Address(), subject, []byte("fork"), spice.Melange{}, s.now())
+			wgt := l.Weight
+			if r.Weight > wgt {
+				wgt = r.Weight
+			}
+			v, _ := accountant.NewVertex(t, l.Hash, r.Hash, wgt+1, sealer)
+			w.remember(&v)
+			if src.add(&v, -1) != "ROk" {
+				return nil
+			}
+			return &v
+		}
+		if base != nil {
+			a, w1, w2 := fork(base, base, "A"), fork(base, base, "W1"), fork(base, base, "W2")
+			if a != nil && w1 != nil && w2 != nil {
+				u1, u2 := fork(w1, w1, "U1"), fork(w2, w2, "U2")
+				if u1 != nil && u2 != nil {
+					fork(a, u1, "T1")
+					fork(a, u2, "T2")
+					src.stats["load.forked_source"]++
+				}
+			}
+		}
+	}
 	stream := streamOf(src)
 	// stream is a duplicate-free enumeration of the live vertices
 	seen := map[[32]byte]bool{}
@@ -922,6 +961,58 @@ func scenarioHeavy(seed int64, idx int) ScenarioOut {
 		s.nodes = append(s.nodes, n1, n2)
 	}
 	o := s.out("heavy", true)
+	o.NonTriv = true
+	return o
+}
+
+// ---------------------------------------------------------------- revoked trust (C01): the trusted-node exemption ends with the revocation
+func scenarioRevoke(seed int64, idx int) ScenarioOut {
+	w := newWorld(seed*4100011+int64(idx), 7)
+	s := &sim{w: w, bal: map[string]int64{}, pending: map[int][]*accountant.Vertex{}, clock: time.Now().Add(-time.Hour)}
+	s.genesisSigner, s.recvRich, s.users = w.wallets[0], w.wallets[1], w.wallets[1:5]
+	n := newNode(w, fmt.Sprintf("revoke%d", idx), w.wallets[0])
+	defer n.close()
+	s.nodes = []*Node{n}
+	gv, _ := n.genesis(s.recvRich.Address(), spice.Melange{Currency: 500})
+	if gv == nil {
+		return s.out("revoke", false)
+	}
+	trustedSealer := w.wallets[5]
+	mk := func(issuer *wallet.Wallet, recv string, cur uint64, parent *accountant.Vertex, subject string) *accountant.Vertex {
+		t := craftTrx(issuer, recv, subject, nil, spice.Melange{Currency: cur}, s.now())
+		v, _ := accountant.NewVertex(t, parent.Hash, parent.Hash, parent.Weight+1, trustedSealer)
+		w.remember(&v)
+		return &v
+	}
+	n.trust(trustedSealer.Address(), true)
+	// while trusted: a legitimate vertex and (idx odd) an overdrawing one, both built upon
+	v1 := mk(s.recvRich, s.users[1].Address(), 10, gv, "legit")
+	n.add(v1, -1)
+	tip := v1
+	if idx%2 == 1 {
+		v2 := mk(s.users[2], s.users[3].Address(), 40, tip, "overdraw-while-trusted")
+		n.add(v2, -1)
+		tip = v2
+	}
+	t0 := craftTrx(s.recvRich, s.users[1].Address(), "local-1", nil, spice.Melange{Currency: 1}, s.now())
+	if c, cls := n.create(&t0, -1); cls == "ROk" {
+		tip = c
+	}
+	n.trust(trustedSealer.Address(), false)
+	// after the revocation the same sealer offers an overdrawing transfer: it may sit as a tentative tip, but nothing may be built on it
+	x := mk(s.users[3], s.users[1].Address(), 50+uint64(idx), tip, "overdraw-after-revocation")
+	n.add(x, -1)
+	for k := 0; k < 3; k++ {
+		t := craftTrx(s.recvRich, s.users[2].Address(), fmt.Sprintf("local-after-%d", k), nil, spice.Melange{Currency: 1}, s.now())
+		n.create(&t, -1)
+	}
+	sn := n.ab.VerifSnapshot()
+	for i := range sn.Vertices {
+		if sn.Vertices[i].Hash == x.Hash {
+			n.stats["revoke.overdraw_still_live"]++
+		}
+	}
+	o := s.out("revoke", true)
 	o.NonTriv = true
 	return o
 }
